@@ -158,6 +158,9 @@ class Crate:
         self.freeze = {f["d"]: f["freeze"] for f in data["freeze"]}
         for b in self.bodies:
             b["_crate"] = self
+        # helpers extracted by a refactoring (private fns unknown to the pinned tree) are inlined back (va/inline.py)
+        from . import inline
+        self.inlined = inline.apply(self)
 
     def ty(self, i):
         return self.types[i]
